@@ -213,6 +213,8 @@ def oracle_c06(fw, cfg, ops, res):
             if e[0] == "raised" and e[1] != "ProtocolError" and n != "result":
                 if not (e[1] == "TransportLost" and n == "goodbye" and not cfg.get("lenient")):
                     v.append((f"{n}/ESCAPED/{e[1]}", f"{e[1]} escaped at op {i}: {op}"))
+            if e[0] == "called" and e[1][0] == "leave" and n == "goodbye" and e[1][2] is not None:
+                v.append(("leave/session-id-still-set-inside-onLeave", f"onLeave at op {i} sees session id {e[1][2]}"))
             if e[0] == "called" and e[1][0] in ("connect", "join", "leave", "disconnect"):
                 c = e[1][0]
                 if in_scope:
@@ -366,7 +368,7 @@ def run(ck):
     ok, out = vlib.coq_make(["Model/SessionRun.vo"])
     if not ok:
         raise RuntimeError("SessionRun build failed: " + out[-1500:])
-    n_hist = 1200 if ck.quick() else 15000
+    n_hist = 500 if ck.quick() else 15000
     jobs = []
     shards = 8
     for fw in FRAMEWORKS:
@@ -376,7 +378,7 @@ def run(ck):
         sysc = systematic_cases(fw)
         if ck.quick():
             r2 = ck.rng(f"sys/{fw}")
-            sysc = r2.sample(sysc, min(len(sysc), 1500))
+            sysc = r2.sample(sysc, min(len(sysc), 700))
         cases += sysc
         cases += [gen_c06_case(rng, fw) for _ in range(n_hist)]
         per = (len(cases) + shards - 1) // shards
@@ -396,15 +398,7 @@ def run(ck):
             ck.bump("oracle:" + key)
             if key not in found or len(it[2]) < len(found[key][1][2]):
                 found[key] = (text, it)
-    for key, (text, it) in sorted(found.items()):
-        fw, cfg, ops, res = it
-
-        def still(cands, results, fw=fw, cfg=cfg, key=key):
-            return [any(k == key for k, _ in oracle_c06(fw, cfg, c, r)) for c, r in zip(cands, results)]
-        small = c04.shrink(ck, fw, cfg, ops, still, keep_prefix=1)
-        r2 = c04.run_histories(ck, fw, [{"cfg": cfg, "ops": small}])[0]
-        ck.violation(f"{fw}/{key}", f"[{fw}] {text}", {"fw": fw, "cfg": cfg, "ops": small, "trace": r2["trace"]},
-                     found_input=True)
+    c04.report_findings(ck, found, oracle_c06, lambda fw: 1)
     bad = c04.model_compare(ck, "c06", items)
     ck.bump("model_compared", len(items))
     ck.log(f"model comparison: {len(items)} histories, {len(bad)} disagreements; oracle findings: {sorted(found)}")
@@ -424,8 +418,12 @@ def run(ck):
         ck.violation(f"{fw}/model-disagrees/{shape}", "implementation and Gallina session model disagree "
                      "(correspondence broken)", {"fw": fw, "cfg": cfg, "ops": small, "trace": r2["trace"],
                                                  "model": c04.model_answer(ck, fw, cfg, small, r2)}, found_input=False)
-    if broken and not found:
-        ck.log("proof obligations broken, no failing input found by the sweep")
+    if broken:
+        # the sweep above is the search for a concrete failing input; whatever it found is reported with its replay,
+        # the broken obligations themselves are reported here (no failing input attached)
+        ck.violation("obligation/" + broken[0], f"proof obligation(s) no longer check: {broken[:12]}",
+                     {"broken_obligations": broken, "note": "see coverage.broken_obligations in the evidence file for the "
+                      "coqc error; the history sweep of this run is the search for a failing input"}, found_input=False)
 
 
 def replay(path):
